@@ -312,7 +312,7 @@ func TestC30(t *testing.T) {
 	p := &batchProp[c30Case]{
 		ID:          "C30",
 		Rule:        "C17's grammar and option generator with writeBison = true, plus 0..3 %left/%right/%nonassoc groups and %prec markers on a quarter of the unannotated alternatives (a terminal of a group, the rule's first terminal, or - one in four - any terminal, also one without a precedence level); compiled and generated in process (no build). The exported <name>.y is parsed (sections, %start, precedence lines, %token, `lhs :` blocks, `/*.marker*/` comments, %prec, %empty, action blocks skipped) and compared with grammar.Parser.Rules grouped by left-hand side in first-occurrence order (terminals by ID, nonterminals by name, markers ignored), Parser.Prec in order, the %token list (terminals without precedence, except eoi) and Parser.Inputs. Non-trivial: >=4 productions; distinct by grammar text.",
-		Quick:       3000, Thorough: 30000, BatchSize: 200,
+		Quick:       3000, Thorough: 120000, BatchSize: 200,
 		Gen:         c30Gen,
 		Unit:        func(c c30Case, name string) (batch.Unit, bool) { return batch.Unit{Name: name, TM: c.render(name)}, true },
 		OnGenerated: c30OnGenerated,
